@@ -23,7 +23,9 @@ Rec(v) == LET s == St(v[1], v[2])
               heldAfterRead |-> ~OQWritePred(r),
               lenAfterWrite |-> IF OQWritePred(s) THEN Len(OQWrite(s, v[2] + 1).q) ELSE Len(s.q)]
 (* the bounded-FIFO property itself, on these states *)
-CapacityRespected == \A v \in Vectors : Rec(v).lenAfterWrite <= v[1]
+(* a write never takes the queue above its capacity, nor - when the capacity was lowered below the fill level -
+   above what it already holds *)
+CapacityRespected == \A v \in Vectors : Rec(v).lenAfterWrite <= (IF v[2] > v[1] THEN v[2] ELSE v[1])
 ASSUME CapacityRespected
 ASSUME \A v \in Vectors : PrintT(ToJson(Rec(v)))
 
